@@ -37,18 +37,19 @@ func init() {
 }
 
 type c18Entry struct {
-	Type     string   `json:"type"`
-	Source   string   `json:"source"`
-	Target   string   `json:"target"`
-	Allow    []string `json:"allow,omitempty"`
-	Deny     []string `json:"deny,omitempty"`
-	RAllow   []string `json:"repo_allow,omitempty"`
-	RDeny    []string `json:"repo_deny,omitempty"`
-	Platform string   `json:"platform,omitempty"`
-	Media    []string `json:"mediaTypes,omitempty"`
-	Backup   string   `json:"backup,omitempty"`
-	Refs     bool     `json:"referrers,omitempty"`
-	DTags    bool     `json:"digestTags,omitempty"`
+	Type       string   `json:"type"`
+	Source     string   `json:"source"`
+	Target     string   `json:"target"`
+	Allow      []string `json:"allow,omitempty"`
+	Deny       []string `json:"deny,omitempty"`
+	RAllow     []string `json:"repo_allow,omitempty"`
+	RDeny      []string `json:"repo_deny,omitempty"`
+	Platform   string   `json:"platform,omitempty"`
+	Media      []string `json:"mediaTypes,omitempty"`
+	MediaEmpty bool     `json:"mediaTypes_written_as_empty_list,omitempty"` // "mediaTypes: []": means the defaults, like an omitted list
+	Backup     string   `json:"backup,omitempty"`
+	Refs       bool     `json:"referrers,omitempty"`
+	DTags      bool     `json:"digestTags,omitempty"`
 }
 
 func (en c18Entry) yaml() string {
@@ -76,6 +77,9 @@ func (en c18Entry) yaml() string {
 		fmt.Fprintf(&sb, "    platform: %s\n", en.Platform)
 	}
 	list("mediaTypes", en.Media, "    ")
+	if en.MediaEmpty && len(en.Media) == 0 {
+		sb.WriteString("    mediaTypes: []\n")
+	}
 	if en.Backup != "" {
 		fmt.Fprintf(&sb, "    backup: %q\n", en.Backup)
 	}
@@ -198,7 +202,9 @@ func runC18(e *core.Env) {
 		if e.Choose("gen", 4, "platform") == 3 {
 			en.Platform = "linux/amd64"
 		}
-		switch e.Choose("gen", 4, "media") {
+		switch e.Choose("gen", 5, "media") {
+		case 4:
+			en.MediaEmpty = true
 		case 2:
 			en.Media = []string{gen.MTOCIManifest, gen.MTOCIIndex}
 		case 3:
